@@ -26,6 +26,7 @@ type idxEngine struct {
 	fills      map[*ssa.Function]fillSummary
 	reflPanics *reflEval // the reflective-fill evaluation of Decoration.Populate (panic verdicts of its helpers)
 	reflTried  bool
+	resNN      map[string]bool
 	nondec     map[*types.Var]bool
 	immut      map[*types.Var]bool
 	Obls       []*idxOb
@@ -993,4 +994,51 @@ func (ix *idxEngine) resultLenBounds(p *prover, call *ssa.Call, callee *ssa.Func
 		out = append(out, common[key])
 	}
 	return out
+}
+
+// funcResultNonNegIdx: result #k of f is >= 0 at every return (merged returns taken apart case by case).
+func (ix *idxEngine) funcResultNonNegIdx(f *ssa.Function, k int) bool {
+	if ix.resNN == nil {
+		ix.resNN = map[string]bool{}
+	}
+	key := fmt.Sprintf("%p#%d", f, k)
+	if v, ok := ix.resNN[key]; ok {
+		return v
+	}
+	ix.resNN[key] = true // coinductive
+	ok := len(f.Blocks) > 0 && k < f.Signature.Results().Len()
+	if ok {
+		p := ix.proverFor(f)
+		cases := returnCases(f)
+		if len(cases) == 0 {
+			ok = false
+		}
+		for _, rc := range cases {
+			if k >= len(rc.Vals) {
+				ok = false
+				break
+			}
+			at := ssa.Instruction(rc.Ret)
+			var extra []constraint
+			if rc.Via != rc.Ret.Block() {
+				last := rc.Via.Instrs[len(rc.Via.Instrs)-1]
+				at = last
+				if pi, isIf := last.(*ssa.If); isIf && rc.Via.Succs[0] != rc.Via.Succs[1] && rc.Into != nil {
+					for si, sb := range rc.Via.Succs {
+						if sb == rc.Into {
+							extra = append(extra, p.condConstraints(pi.Cond, si == 0)...)
+						}
+					}
+				}
+			}
+			if good, _ := p.prove(leq(linConst(0), p.linOf(rc.Vals[k]), "result >= 0"), at, extra, 0); !good {
+				ok = false
+				if os.Getenv("TABDBG") == "resnn" {
+					fmt.Fprintf(os.Stderr, "resnn %s #%d case %d: cannot show %s >= 0\n", f.Name(), k, rc.N, p.linOf(rc.Vals[k]).String())
+				}
+			}
+		}
+	}
+	ix.resNN[key] = ok
+	return ok
 }
